@@ -231,7 +231,9 @@ def judge(path):
                 viol("item-count:%s" % shape, "set gained %d items for %d elements" % (gained, len(elems)), ev, text)
                 continue
             for e, it in zip(elems, items):
-                kid, err, msg_ne, kty, has_pem, has_oct, bits, alg, priv, curve = it
+                kid, err, msg_ne, kty, has_pem, has_oct, bits, alg, priv, curve = it[:10]
+                if err and len(it) > 10:
+                    out.setdefault('msgs', set()).add(it[10])
                 ekty = e.get("kty") if isinstance(e, dict) else None
                 ekid = e.get("kid") if isinstance(e, dict) else None
                 out["distinct"].add((shape, type(e).__name__, ekty if isinstance(ekty, str) and ekty in KTY else type(ekty).__name__,
